@@ -519,6 +519,9 @@ func (a *AddrManager) nextAddresses(dbTransaction db.DBTransaction, internal boo
 }
 
 func (a *AddrManager) updateManagedAddress(dbTransaction db.ReadTransaction, managedAddresses []*ManagedAddress) error {
+	a.mu.Lock()
+	defer a.mu.Unlock()
+
 	for _, managedAddress := range managedAddresses {
 		a.addrs[managedAddress.address] = managedAddress
 	}
@@ -609,7 +612,9 @@ func (a *AddrManager) changeRemark(dbTransaction db.DBTransaction, newRemark str
 			return err
 		}
 	}
+	a.mu.Lock()
 	a.remark = newRemark
+	a.mu.Unlock()
 	return nil
 }
 
@@ -733,6 +738,8 @@ func (a *AddrManager) Name() string {
 }
 
 func (a *AddrManager) Remarks() string {
+	a.mu.Lock()
+	defer a.mu.Unlock()
 	return a.remark
 }
 
